@@ -120,6 +120,24 @@ func dispatch(job Job) *JobRes {
 	switch job.Engine {
 	case "seq":
 		return seqJob(job)
+	case "enum":
+		mon.Reset(0, false)
+		childLog("enum seed=%d case=%d", job.Seed, job.Case)
+		r := runEnum(job.Seed, job.Case, job.Tier)
+		out := &JobRes{Viol: r.Viol, Evals: r.Enums, Counters: Counter{"pages": r.Pages, "enumerations_with_2_or_more_pages": r.Multi, "enumerations_with_mutation_inside": r.Mutated, "resumes_from_earlier_cookies": r.Resumes}}
+		out.Counters.Merge(r.Shapes)
+		if r.Multi > 0 {
+			out.Distinct = sortedKeys(r.Combos)
+		}
+		out.Samples = []interface{}{r.Sample}
+		return out
+	case "limits":
+		mon.Reset(0, false)
+		childLog("limits seed=%d case=%d", job.Seed, job.Case)
+		r := runLimits(job.Seed, job.Case, job.Tier)
+		out := &JobRes{Viol: r.Viol, Evals: r.Cases, Counters: Counter{}, Distinct: sortedKeys(r.Keys)}
+		out.Samples = []interface{}{map[string]interface{}{"announced": r.Lim, "first_ops": r.Sample}}
+		return out
 	}
 	return &JobRes{Viol: []Violation{{Class: "harness", Msg: "unknown engine " + job.Engine}}}
 }
@@ -229,6 +247,32 @@ func propSpecs() map[string]PropSpec {
 	add(PropSpec{ID: "C12", Level: "exploration", Classes: []string{"content", "crash"},
 		Rule: "block-recycling sequences on small disks (pattern f(write id, offset) never zero), shrink to aligned/unaligned sizes and regrow, free-space sweep at the end; every READ and whole-tree dump compared with the reference; distinct = distinct (procedure, outcome, argument class) triples",
 		Plan: seqPlan("C12", 30, 600)})
+	add(PropSpec{ID: "C13", Level: "exploration", Classes: []string{"enum", "crash"},
+		Rule: "page-by-page enumerations (READDIR and READDIRPLUS) of directories of 10 shapes (empty ... multi-block, freed slots, long names) with every count/dircount/maxcount class, resumption from every cookie previously returned, adds/removes between pages and a concurrent mutator; distinct = distinct (shape, procedure, count class, dircount class) combinations in runs with >= 1 multi-page enumeration",
+		Plan: func(tier string, seed uint64) []Job {
+			n := 20
+			if tier == "thorough" {
+				n = 400
+			}
+			var js []Job
+			for i := 0; i < n; i++ {
+				js = append(js, Job{Engine: "enum", Profile: "C13", Seed: seed, Case: i})
+			}
+			return js
+		}})
+	add(PropSpec{ID: "C19", Level: "exploration", Classes: []string{"limit", "crash"},
+		Rule: "names of length limit-2..limit+2, 255, 256, 1000+ (CREATE/MKDIR/SYMLINK/RENAME, then LOOKUP/list/rename/restart); WRITEs of wtpref, wtmax-1, wtmax, wtmax+1, 2*wtmax bytes at six offsets and three stability levels with read-back; file sizes maxfilesize-4097..+4097 and up to 2^64-1 by WRITE and SETATTR with reads, restart, truncation; beyond => error and unchanged tree/free counts; distinct = distinct (limit, delta, procedure, outcome) cases",
+		Plan: func(tier string, seed uint64) []Job {
+			n := 6
+			if tier == "thorough" {
+				n = 60
+			}
+			var js []Job
+			for i := 0; i < n; i++ {
+				js = append(js, Job{Engine: "limits", Profile: "C19", Seed: seed, Case: i})
+			}
+			return js
+		}})
 	return m
 }
 
